@@ -58,6 +58,16 @@ class _T(ast.NodeTransformer):
                 parts.append(ast.Call(func=ast.Name("_sx_fmtval", ast.Load()), args=[v.value, spec, ast.Constant(v.conversion)], keywords=[]))
         return ast.copy_location(ast.Call(func=ast.Name("_sx_fstring", ast.Load()), args=parts, keywords=[]), node)
 
+    def visit_Assign(self, node):
+        self.generic_visit(node)
+        if "setdtype" in self.hooks and len(node.targets) == 1:
+            t = node.targets[0]
+            if isinstance(t, ast.Attribute) and t.attr == "dtype" and isinstance(t.value, ast.Name):
+                self._hit("setdtype")
+                call = ast.Call(func=ast.Name("_sx_setdtype", ast.Load()), args=[ast.Name(t.value.id, ast.Load()), node.value], keywords=[])
+                return ast.copy_location(ast.Assign(targets=[ast.Name(t.value.id, ast.Store())], value=call), node)
+        return node
+
     def visit_BinOp(self, node):
         self.generic_visit(node)
         if "mod" in self.hooks and isinstance(node.op, ast.Mod):
